@@ -1,6 +1,7 @@
 import Proofs.C07Uniq
 import Proofs.C07Examples
 import Proofs.C07Exec
+import Proofs.C07Exist
 /-!
 C07 — committors and mean first-passage times satisfy their first-step equations.
 
@@ -9,6 +10,20 @@ statement by statement) and are stated with the model's own sum `sumTo`.  The nu
 are parameters with contracts (`CommittorSolve`, `MfptSolve`, `FundInv`, `Stationary`), never
 axioms; the `…_exec` theorems instantiate them with the certified exact solver that the driver
 runs, so they speak about exactly the values the correspondence check compares against.
+
+CORRESPONDENCE-ONLY clauses of the property (no theorem here; they are about containers, object identity and the
+numerical eigen-solver, none of which the model has — `harness/props/c07.py` checks them on every case):
+  * "dense and sparse inputs give the same values" (ndarray / np.matrix / Fortran / strided / float32 and the 7 scipy
+    `*_matrix` containers are compared with each other on the real code);
+  * "the inputs are not modified" (byte snapshots of every argument before/after every real call, also when the same
+    objects are reused across calls);
+  * populations GIVEN vs COMPUTED (`eq_probs` is a parameter with contract `Stationary`; that the library's own
+    eigen-solver meets it, and that both ways give the same table, is checked numerically).
+Existence of the solver outputs is NOT assumed silently: `ImQ_nonsingular`, `committor_solver_output_exists` and
+`mfpt_solver_output_exists` prove that under the ergodicity hypotheses `I − Q` is non-singular, so the contracts
+`CommittorSolve` / `MfptSolve` are satisfiable (and by `absorbing_unique` determine the output).  For the all-pairs
+table the existence of the right inverse `Z` (`FundInv`) is a hypothesis (checked exactly on every correspondence case
+by the certified solver; not proved in general).
 
 Hypotheses are the property's quantifier: state indices in range, sources/sinks disjoint, sinks
 listed without repetition, `T` non-negative and row-stochastic, absorbing set reachable from
@@ -96,6 +111,49 @@ theorem committor_exec (n : Nat) (T : Mat) (sources sinks : List Nat) (q : Vec)
 example : okVal (committors 4 T4 [0] [2, 3]) 1 = some (2/3) ∧
     okVal (committors 4 T4 [0] [2, 3]) 3 = some 1 ∧
     okVal (committors 4 T4 [0] [7]) 0 = none := by decide +kernel
+
+/-! ### the solver outputs exist -/
+
+/-- Under the ergodicity hypotheses `I − Q` is non-singular (finite square system: uniqueness from the maximum
+principle ⇒ injective ⇒ unit). -/
+theorem ImQ_nonsingular (n : Nat) (T : Mat) (S : List Nat)
+    (hS : ∀ s ∈ S, s < n)
+    (hnn : ∀ i, i < n → ∀ j, j < n → 0 ≤ T i j)
+    (hrow : ∀ i, i < n → sumTo n (fun j => T i j) = 1)
+    (hreach : ∀ i, i < n → Reach n T S i) :
+    IsUnit (toMatrix n (ImQ T S)) := by
+  simp only [sumTo_eq_sum] at hrow
+  exact ImQ_isUnit hS hnn hrow hreach
+
+/-- …so a solver output with the contract `(I−Q) B = R` exists for `committors` (and is unique on `0 … n-1`). -/
+theorem committor_solver_output_exists (n : Nat) (T : Mat) (sources sinks : List Nat)
+    (hsrc : ∀ s ∈ sources, s < n) (hsnk : ∀ s ∈ sinks, s < n)
+    (hnn : ∀ i, i < n → ∀ j, j < n → 0 ≤ T i j)
+    (hrow : ∀ i, i < n → sumTo n (fun j => T i j) = 1)
+    (hreach : ∀ i, i < n → Reach n T (sources ++ sinks) i) :
+    ∃ B : Mat, CommittorSolve n T sources sinks B := by
+  simp only [sumTo_eq_sum] at hrow
+  have hS : ∀ s ∈ sources ++ sinks, s < n := fun s hs =>
+    (List.mem_append.1 hs).elim (hsrc s) (hsnk s)
+  exact absorbing_exists hS hnn hrow hreach sinks.length (Rmat T sources sinks)
+
+/-- …and for `mfpts(sinks=…)`. -/
+theorem mfpt_solver_output_exists (n : Nat) (T : Mat) (sinks : List Nat)
+    (hsnk : ∀ s ∈ sinks, s < n)
+    (hnn : ∀ i, i < n → ∀ j, j < n → 0 ≤ T i j)
+    (hrow : ∀ i, i < n → sumTo n (fun j => T i j) = 1)
+    (hreach : ∀ i, i < n → Reach n T sinks i) :
+    ∃ t : Vec, MfptSolve n T sinks t := by
+  simp only [sumTo_eq_sum] at hrow
+  obtain ⟨B, hB⟩ := absorbing_exists hsnk hnn hrow hreach 1 (cVec sinks)
+  refine ⟨fun i => B i 0, ?_⟩
+  intro i hi k hk
+  have hk0 : k = 0 := by omega
+  subst hk0
+  exact hB i hi 0 hk
+
+example : (∀ s ∈ [0] ++ [2, 3], s < 4) ∧ (∀ i, i < 4 → Reach 4 T4 ([0] ++ [2, 3]) i) :=
+  ⟨by decide, reach_T4⟩
 
 /-! ### mean first-passage times to a sink set -/
 
